@@ -786,6 +786,14 @@ func runMain(args []string) int {
 			fmt.Printf("KNOWN-FINDING: property=%s %s [class=%s, %d histories, replay=%s]\n", *prop, kf.What, cl, total.ClassCount[cl], path)
 			continue
 		}
+		if strings.HasPrefix(cl, "harness-") {
+			// the machinery caught itself misbehaving: trouble, not a finding
+			fmt.Fprintf(os.Stderr, "HARNESS ERROR: %s (%d histories, replay=%s): %s\n", cl, total.ClassCount[cl], path, v.Detail)
+			if exit == 0 {
+				exit = 2
+			}
+			continue
+		}
 		nviol++
 		fmt.Printf("VIOLATION property=%s replay=%s\n", *prop, path)
 		fmt.Printf("  class=%s histories=%d run=%d minimised %d -> %d ops: %s\n", cl, total.ClassCount[cl], v.Run, v.OrigOps, len(h.Ops), v.Detail)
